@@ -93,6 +93,18 @@ func runC18(p *Prog, r *Report) {
 	checkIPFlagSwitch(p, r, set)
 	checkTCPFlagParser(p, r, set)
 	checkTCPFlagTable(p, r, "C18.R4")
+	// the value a parser returned is the value the scan uses: a parsed IP-flag set or payload is handed
+	// to the packet filler on every path (C05.R3 always-applied clause re-evaluated; a parsed value that
+	// is then dropped for some inputs is not "returned" to the user)
+	sub := NewReport("C18", r.Tier)
+	checkCLIChain(p, sub)
+	for _, o := range sub.Obs {
+		if strings.HasSuffix(o.Construct, "/always-applied") && (strings.Contains(o.Construct, "/flags/") || strings.Contains(o.Construct, "/payload/")) {
+			o2 := *o
+			o2.Rule = "C18.R4"
+			r.Obs = append(r.Obs, &o2)
+		}
+	}
 }
 
 // ---- R1: index / slice obligations ----
